@@ -83,18 +83,21 @@ def isException (w : Str) : Bool := (canonException w).isSome
 `parse n ts` reads one compound expression from the front of `ts` and returns the rest
 (`n` bounds the recursion; every recursive call is on a strictly shorter list, so `length + 1` suffices). -/
 
+/-- term := "(" compound ")" | simple WITH exception | simple      (`sub` reads a compound) -/
+def term (sub : List Tok → Option (List Tok)) : List Tok → Option (List Tok)
+  | .lp :: r =>
+    (match sub r with
+     | some (.rp :: r') => some r'
+     | _ => none)
+  | .word a :: .with :: .word e :: r => if isSimple a && isException e then some r else none
+  | .word a :: r => if isSimple a then some r else none
+  | _ => none
+
+/-- compound := term | term AND compound | term OR compound -/
 def parse : Nat → List Tok → Option (List Tok)
   | 0, _ => none
   | n + 1, ts =>
-    let afterTerm : Option (List Tok) :=
-      match ts with
-      | .lp :: r => (match parse n r with
-          | some (.rp :: r') => some r'
-          | _ => none)
-      | .word a :: .with :: .word e :: r => if isSimple a && isException e then some r else none
-      | .word a :: r => if isSimple a then some r else none
-      | _ => none
-    match afterTerm with
+    match term (parse n) ts with
     | some (.and :: r) => parse n r
     | some (.or :: r) => parse n r
     | x => x
